@@ -127,10 +127,10 @@ pub enum M {
 }
 
 impl M {
-    fn tracked(&self) -> bool {
+    pub fn tracked(&self) -> bool {
         !matches!(self, M::Untracked)
     }
-    fn data(&self) -> Option<&OD> {
+    pub fn data(&self) -> Option<&OD> {
         match self {
             M::Open(o) => Some(o),
             M::InFlightCancel(o) => o.as_ref(),
@@ -139,7 +139,7 @@ impl M {
     }
 }
 
-enum Exp {
+pub enum Exp {
     OneOf(Vec<M>),
     /// before tracked => after tracked; otherwise anything (statement silent)
     KeepTracked,
@@ -178,7 +178,7 @@ fn expect_report(m: &M, st: &SnapSt, qty: i64) -> Exp {
     }
 }
 
-fn expect_op(m: &M, op: &OpA, qty: i64) -> Exp {
+pub fn expect_op(m: &M, op: &OpA, qty: i64) -> Exp {
     match op {
         OpA::OpenSent { .. } => match m {
             M::Untracked => Exp::OneOf(vec![M::InFlightOpen]),
